@@ -225,10 +225,10 @@ class Native:
             return {"ratio": 0.0, "note": "no timing result"}
         return json.load(open(outp))
 
-    def pump(self, data, prefixes=(b"", b"<a ", b"<a b='", b"<", b"<a b=x "), reps=300000):
-        """C02: does repeating some 1- or 2-byte slice of `data` make the natively compiled detector overflow its (capped) stack?"""
+    def pump(self, data, prefixes=(b"", b"<a ", b"<a b='", b"<", b"<a b=x "), reps=300000, lens=(1, 2, 3, 4)):
+        """C02: does repeating some 1- to 4-byte slice of `data` make the natively compiled detector overflow its (capped) stack?"""
         tried = 0
-        for l in (1, 2):
+        for l in lens:
             for i in range(0, len(data) - l + 1):
                 for pre in prefixes:
                     spec = {"Prefix": pre.hex(), "Head": data[:i].hex(), "Unit": data[i:i + l].hex(), "Tail": data[i + l:].hex(), "Reps": reps}
